@@ -282,6 +282,13 @@ def handle : List Sx → Sx
       --  divisor keeps its derivatives: no special case any more)
       .list [r, da, db]
     | _, _, _, _ => err "operand"
+  -- `_div_by_number` with derivatives (qube.py): every derivative is `deriv._div_by_number(arg)`, i.e. the
+  -- same guarded division of the derivative by the number
+  | [.atom "div_num_d", .list [c], .list [x, dx]] =>
+    match c.toInt?, parseOpd x, parseOpd dx with
+    | some c, some x, some dx =>
+      .list [run1 (fun a => divByNumber a (q8 c)) true x, run1 (fun a => divByNumber a (q8 c)) true dx]
+    | _, _, _ => err "operand"
   | [.atom "recip_d", .list [], .list [x, dx]] =>
     match parseOpd x, parseOpd dx with
     | some x, some dx => .list [run1 (reciprocal false) true x, run2 reciprocalDeriv true dx x]
